@@ -265,6 +265,28 @@ impl Property for C01 {
     }
     fn fixed_cases(&self, tier: Tier) -> Vec<Case> {
         let mut v = Vec::new();
+        // more than 65536 symbols in one stream
+        {
+            let mut ops = Vec::with_capacity(70_100);
+            for i in 0..70_000u32 {
+                ops.push(match i % 7 {
+                    0 if i > 10 => Op::Match { dist: 1 + (i % 9), len: 2 + (i % 5) },
+                    3 if i > 10 => Op::ShortRep,
+                    5 if i > 10 => Op::Rep { idx: (i % 4) as u8, len: 2 },
+                    _ => Op::Lit((i.wrapping_mul(2654435761) >> 13) as u8),
+                });
+            }
+            for (props, dict) in [(Props::new(3, 0, 2), 1u32 << 16), (Props::new(1, 3, 1), 4096)] {
+                v.push(Case {
+                    props,
+                    dict,
+                    ops: ops.clone(),
+                    term: Term::Marker(2),
+                    container: Container::Header13,
+                    redeclare_sel: 3,
+                });
+            }
+        }
         let sizes: &[u64] = match tier {
             Tier::Quick => &[300_000, 1 << 20, 20 << 20],
             Tier::Thorough => &[1 << 20, 4 << 20, 16 << 20, 64 << 20, 33 << 20],
@@ -412,6 +434,34 @@ impl Property for C01 {
             return Judgement::violation("wrong-bytes", describe("output differs from the format's definition", &r));
         }
 
+        // ---- the same stream through a fragmenting reader into a short-writing sink
+        if expected.len() <= 200_000 {
+            let h = hash64(&(c.props.byte(), c.dict, &c.ops));
+            let frag = ReaderKind::Chunky { pattern: vec![1 + (h % 9) as usize, 1 + ((h >> 9) % 200) as usize], stops: vec![] };
+            let short = Io {
+                sink: crate::iowrap::SinkCfg { max_per_write: vec![1 + ((h >> 20) % 5) as usize, 5000], ..Default::default() },
+                ..Default::default()
+            };
+            let r3 = match c.container {
+                Container::Header13 => {
+                    let mut f = lzma_header(c.props, c.dict, size);
+                    f.extend_from_slice(&enc.payload);
+                    Some(sut::lzma_decompress(&f, &Opts::default(), &frag, &short))
+                }
+                Container::Raw => Some(sut::raw_lzma(c.props, c.dict, size, None, &enc.payload, &frag, &short)),
+                _ => None,
+            };
+            if let Some(r3) = r3 {
+                st.eval();
+                st.class("also: fragmenting reader + short-writing sink");
+                if !r3.verdict.is_ok() || r3.out != expected {
+                    return Judgement::violation(
+                        "reader-or-sink-dependence",
+                        describe("same stream through a fragmenting reader into a short-writing sink", &r3),
+                    );
+                }
+            }
+        }
         // ---- metamorphic (a): header dict < 4096 behaves as 4096
         let is_raw = matches!(c.container, Container::Raw | Container::RawReset { .. });
         if !is_raw && c.dict < 4096 && sh.max_dist > c.dict as u64 {
